@@ -207,6 +207,7 @@ class Interp:
         self._n = 0
         self._const_cache = {}
         self.unresolved_calls = []
+        self.depth_cuts = []
 
     # ------------------------------------------------------------------ ids
     def fresh(self, prefix):
@@ -1083,6 +1084,11 @@ class Interp:
                         return x >= y
                 except Exception:
                     return None
+            if op in ("is", "is not"):
+                # a NumPy dtype instance is never a builtin type object
+                for x, y in ((a, b), (b, a)):
+                    if x.op == "attr" and x.args[1] == "dtype" and y.op == "ext" and y.args[0] in ("builtins.float", "builtins.int", "builtins.bool", "builtins.str", "builtins.object"):
+                        return op == "is not"
             if op in ("is", "is not") and (b == NONE or a == NONE):
                 other = a if b == NONE else b
                 if other.op in ("alloc", "tuple", "list", "closure", "func", "class", "comp", "dict"):
@@ -1324,10 +1330,12 @@ class Interp:
                         out.append((fi, base.args[0], "call", None))
                 return
             ty = self.type_of(fr, base)
+            if name == "__class__":
+                if ty is not None and ty[0] == "inst":
+                    out.append((self.prog.lookup_method(ty[1], "__init__"), None, "construct", ty[1]))
+                return
             if ty is not None and ty[0] == "inst":
                 ci, exact = ty[1], ty[2]
-                if name == "__class__":
-                    return
                 cands = [self.prog.lookup_method(ci, name)] if exact else self.prog.overriders(ci, name)
                 cands = [c for c in cands if c is not None]
                 if cands:
@@ -1344,11 +1352,6 @@ class Interp:
                     _, expr = self.prog.lookup_class_attr(c, name)
                     if expr is not None:
                         pass
-            # self.__class__(...) / cls(...)
-            if name == "__class__":
-                ty = self.type_of(fr, base)
-                if ty is not None and ty[0] == "inst":
-                    out.append((self.prog.lookup_method(ty[1], "__init__"), None, "construct", ty[1]))
         elif a.op in ("iter", "sub", "dval"):
             for el in self.elements_of(a.args[0]):
                 for b in tm.alts(el):
@@ -1379,6 +1382,7 @@ class Interp:
         if not self.inline_enabled(fi):
             return None
         if fr.depth >= self.max_depth:
+            self.depth_cuts.append((fr.fi, fi, node))
             return None
         if any(s[0] is fi for s in fr.stack) or fr.fi is fi:
             self.emit(fr, "recursion", node, callee=fi)
